@@ -388,17 +388,27 @@ def o_to_pgl(A, bilinear_form=np.diag([-1, 1, 1])):
 
     A_d = conj_i @ A @ conj
 
-    a = np.sqrt(np.abs(A_d[0, 0]))
-    b = np.sqrt(np.abs(A_d[0, 2]))
-    c = np.sqrt(np.abs(A_d[2, 0]))
-    d = np.sqrt(np.abs(A_d[2, 2]))
+    # A_d is +/- sl2_irrep([[a, b], [c, d]], 3), whose rows are
+    # (d^2, cd, c^2), (2bd, ad + bc, 2ac), (b^2, ab, a^2);
+    # O(2,1) -> PGL(2) kills -1, and the corners of sl2_irrep are squares
+    if A_d[0, 0] + A_d[0, 2] + A_d[2, 0] + A_d[2, 2] < 0:
+        A_d = -A_d
+
+    a = np.sqrt(np.abs(A_d[2, 2]))
+    b = np.sqrt(np.abs(A_d[2, 0]))
+    c = np.sqrt(np.abs(A_d[0, 2]))
+    d = np.sqrt(np.abs(A_d[0, 0]))
 
     # TODO: make this vector-safe, right now the docstring is a lie
-    if A_d[0][1] < 0:
+    # the last row determines (a, b) up to sign, the first row (c, d)
+    # up to sign, and the middle row fixes the relative sign
+    if A_d[2][1] < 0:
         b = b * -1
-    if A_d[1][0] < 0:
+    if A_d[0][1] < 0:
+        d = d * -1
+    if (2 * b * d * A_d[1][0] + (a * d + b * c) * A_d[1][1]
+        + 2 * a * c * A_d[1][2]) < 0:
         c = c * -1
-    if A_d[1][2] * A_d[0][1] < 0:
         d = d * -1
 
     return np.array([[a, b],
